@@ -47,7 +47,7 @@ static void c20nv_out(const Rsp *r, const uint8_t **p, uint32_t *n) {
     *p = r->p + 10; *n = k;
 }
 static void c20nv_trace(const char *name, const char *tag, const Rsp *r, const char *fmt, ...) {
-    tr_begin("nv name=%s tag=%s loc=%d hw=%d ret=%u rc=%u", name, tag, g_locality, g_pp, r->ret, r->rc);
+    tr_begin("nv name=%s tag=%s loc=%d hw=%d ret=%u rc=%u stores=%ld", name, tag, g_locality, g_pp, r->ret, r->rc, g_store_perm_in_cmd);
     if (fmt) { va_list ap; va_start(ap, fmt); fputc(' ', g_tr); vfprintf(g_tr, fmt, ap); va_end(ap); }
     const uint8_t *p; uint32_t n; c20nv_out(r, &p, &n);
     trhex("out", p, n);
@@ -192,6 +192,99 @@ static void c20nv_random(Buf *b) {
         break; }
     }
 }
-static void c20nv_reset_notes(void) { memset(c20nv_note, 0, sizeof c20nv_note); c20nv_locked = 0; c20nv_owner = 0; }
+
+/* ---------- owner-authorized and area-authorized variants (an owner is installed in a few histories) ----------
+ * The client (t12_client.h) sends its commands through c20_t12c_run: session set-up commands (OIAP, OSAP, Terminate_Handle,
+ * CreateEndorsementKeyPair ...) are traced as `op name=other`; the NV command itself is traced by the caller as an `nv` line
+ * with tag=auth1ok / auth1bad (= the client built a correct / a deliberately wrong HMAC) and hmac=<response HMAC verified>. */
+static Rsp c20nv_main; static long c20nv_main_stores; static int c20nv_have_main; static int c20nv_badauth;
+static Rsp c20_t12c_run(Buf *b, const char *label) {
+    Rsp r = c20_run(b, label);
+    if (r.rc == 0xFFFFFFFF && !r.len) return r;
+    uint32_t ord = b->n >= 10 ? g32(b->p + 6) : 0;
+    if (ord == T12_ORD_NV_DefineSpace || ord == T12_ORD_NV_WriteValue || ord == T12_ORD_NV_ReadValue || ord == 0xCE || ord == 0xD0 || ord == 0x0D) {
+        c20nv_main = r; c20nv_main_stores = g_store_perm_in_cmd; c20nv_have_main = 1; return r;     /* traced by the caller */
+    }
+    tr("op name=other loc=%d ret=%u rc=%u ord=%u stores=%ld", g_locality, r.ret, r.rc, ord, g_store_perm_in_cmd);
+    return r;
+}
+static void c20nv_area_auth(uint8_t a[20], uint32_t idx) { for (int i = 0; i < 20; i++) a[i] = (uint8_t)(0xA0 + (idx & 0xf) + i); }
+static int c20nv_corrupt(void) { if (c20nv_badauth >= 3 || !chance(12)) return 0; c20nv_badauth++; return 1 + rnd(3); }
+/* the `nv` line of a command sent by the client; `d`/`n`: data written or read back */
+static void c20nv_trace_client(const char *name, int corrupt, int verified, const char *fmt, ...) {
+    if (!c20nv_have_main) return;                                                   /* the session could not be opened: nothing was sent */
+    c20nv_have_main = 0;
+    const Rsp *r = &c20nv_main;
+    tr_begin("nv name=%s tag=%s loc=%d hw=%d ret=%u rc=%u stores=%ld hmac=%d", name, corrupt ? "auth1bad" : "auth1ok", g_locality, g_pp, r->ret, r->rc, c20nv_main_stores, verified);
+    if (fmt) { va_list ap; va_start(ap, fmt); fputc(' ', g_tr); vfprintf(g_tr, fmt, ap); va_end(ap); }
+}
+static void c20nv_install_owner(Buf *b) {
+    static const uint8_t own[20] = {1, 2, 3, 4, 5, 6, 7, 8, 9, 10, 11, 12, 13, 14, 15, 16, 17, 18, 19, 20}, srk[20] = {0};
+    t12c_run = c20_t12c_run;
+    memset(&g12c, 0, sizeof g12c);
+    c20nv_tscpp(b, 0x20); c20nv_tscpp(b, 0x08);
+    if (t12c_create_ek(b) != 0) return;
+    c20nv_have_main = 0;
+    uint32_t rc = t12c_take_ownership(b, own, srk);
+    if (!c20nv_have_main) return;
+    tr("nv name=takeownership tag=auth1ok loc=%d hw=%d ret=%u rc=%u stores=%ld hmac=%d out=-", g_locality, g_pp, c20nv_main.ret, c20nv_main.rc, c20nv_main_stores, rc == 0);
+    c20nv_have_main = 0;
+    if (rc == 0) c20nv_owner = 1;
+}
+static void c20nv_define_owner(Buf *b, uint32_t idx, uint32_t attrs, uint32_t size) {
+    uint8_t auth[20]; c20nv_area_auth(auth, idx); int corrupt = c20nv_corrupt(), ver = -1;
+    c20nv_have_main = 0;
+    uint32_t rc = t12c_nv_define_owner(b, idx, attrs, size, auth, corrupt, &ver);
+    if (!c20nv_have_main) return;
+    c20nv_trace_client("define", corrupt, ver, "idx=%u attrs=%u size=%u lr=31 lw=31 out=-", idx, attrs, size); tr_end();
+    int sl = c20nv_pool_slot(idx);
+    if (rc == 0 && sl >= 0) { c20nv_note[sl].size = size; c20nv_note[sl].attrs = attrs; }
+}
+static void c20nv_write_client(Buf *b, int area_auth, uint32_t idx, uint32_t off, const uint8_t *d, uint32_t n) {
+    uint8_t auth[20]; c20nv_area_auth(auth, idx); int corrupt = c20nv_corrupt(), ver = -1;
+    c20nv_have_main = 0;
+    if (area_auth) t12c_nv_write_auth(b, NULL, auth, idx, off, d, n, corrupt, &ver); else t12c_nv_write_owner(b, NULL, idx, off, d, n, corrupt, &ver);
+    if (!c20nv_have_main) return;
+    c20nv_trace_client(area_auth ? "writeauth" : "write", corrupt, ver, "idx=%u off=%u out=-", idx, off); trhex("d", d, n); tr_end();
+}
+static void c20nv_read_client(Buf *b, int area_auth, uint32_t idx, uint32_t off, uint32_t n) {
+    uint8_t auth[20]; c20nv_area_auth(auth, idx); int corrupt = c20nv_corrupt(), ver = -1; const uint8_t *data = NULL; uint32_t dlen = 0;
+    c20nv_have_main = 0;
+    if (area_auth) t12c_nv_read_auth(b, NULL, auth, idx, off, n, &data, &dlen, corrupt, &ver); else t12c_nv_read_owner(b, NULL, idx, off, n, &data, &dlen, corrupt, &ver);
+    if (!c20nv_have_main) return;
+    c20nv_trace_client(area_auth ? "readauth" : "read", corrupt, ver, "idx=%u off=%u n=%u", idx, off, n);
+    const uint8_t *p; uint32_t k; c20nv_out(&c20nv_main, &p, &k); trhex("out", p, k); tr_end();
+}
+/* one random owner- or area-authorized NV operation */
+static void c20nv_random_owner(Buf *b) {
+    static uint8_t d[256];
+    int slot = rnd(C20NV_POOL); uint32_t idx = c20nv_pool_index(slot), known = c20nv_note[slot].size, sz = known ? known : 16;
+    if (sz > 200) sz = 200;
+    switch (rnd(10)) {
+    case 0: case 1: {
+        static const uint32_t at[] = {NVP_OWNERWRITE, NVP_OWNERWRITE | NVP_OWNERREAD, NVP_AUTHWRITE, NVP_AUTHWRITE | NVP_AUTHREAD, NVP_OWNERWRITE | NVP_WRITEDEFINE,
+            NVP_AUTHWRITE | NVP_WRITE_STCLEAR | NVP_READ_STCLEAR | NVP_AUTHREAD, NVP_OWNERWRITE | NVP_GLOBALLOCK | NVP_OWNERREAD | NVP_READ_STCLEAR, NVP_PPWRITE,
+            NVP_AUTHWRITE | NVP_PPWRITE | NVP_WRITEALL, NVP_OWNERWRITE | NVP_AUTHWRITE, NVP_PPWRITE | NVP_AUTHREAD, NVP_AUTHWRITE | NVP_OWNERREAD};
+        c20nv_define_owner(b, idx, at[rnd(sizeof at / sizeof at[0])], chance(85) ? 1 + rnd(40) : (uint32_t[]){0, 0, 0x7000, 300}[rnd(4)]); break; }
+    case 2: case 3: case 4: {
+        uint32_t off = rnd(sz), n = chance(15) ? 0 : 1 + rnd(sz - off); if (chance(10)) { off = 0; n = sz; } if (chance(5)) n += 3;
+        if (n > sizeof d) n = sizeof d;
+        c20_rand_bytes(d, n);
+        c20nv_write_client(b, chance(50), idx, off, d, n); break; }
+    case 5: case 6: case 7: {
+        uint32_t off = rnd(sz), n = chance(12) ? 0 : 1 + rnd(sz - off); if (chance(5)) n += 3;
+        c20nv_read_client(b, chance(50), idx, off, n); break; }
+    case 8: {
+        if (chance(50)) { c20_rand_bytes(d, 20); c20nv_write_client(b, 0, T12_NV_INDEX_DIR, 0, d, 20); }
+        else if (chance(50)) c20nv_write_client(b, 0, 0, 0, d, 0);                 /* bGlobalLock through an owner-authorized write to index 0 */
+        else c20nv_read_client(b, chance(50), T12_NV_INDEX_DIR, 0, 20);
+        break; }
+    default: {
+        uint32_t off = rnd(sz), n = 1 + rnd(sz - off); if (n > sizeof d) n = sizeof d;
+        int aa = (c20nv_note[slot].attrs & NVP_AUTHWRITE) ? 1 : 0;
+        c20_rand_bytes(d, n); c20nv_write_client(b, aa, idx, off, d, n); c20nv_read_client(b, (c20nv_note[slot].attrs & NVP_AUTHREAD) ? 1 : 0, idx, off, n); break; }
+    }
+}
+static void c20nv_reset_notes(void) { memset(c20nv_note, 0, sizeof c20nv_note); c20nv_locked = 0; c20nv_owner = 0; c20nv_badauth = 0; c20nv_have_main = 0; }
 
 #endif
